@@ -885,3 +885,82 @@ register(Unit('definitions.__ior__', D, 'MutableMixin.__ior__', _unit(_update('u
               assumptions=['contract of union_update'], linkage=[('concepts.Definition.__ior__', None)]))
 register(Unit('definitions.__iand__', D, 'MutableMixin.__iand__', _unit(_update('intersection', True)),
               assumptions=['contract of intersection_update'], linkage=[('concepts.Definition.__iand__', None)]))
+
+
+# ---- take()
+
+allin = Function('allin', Seq, Seq, seqs.B)          # every element of xs is in s  (Unique.issuperset)
+w_allin = Function('w.allin', Seq, Seq, Name)
+
+
+def allin_axioms(xs, s):
+    y = Const('y', Name)
+    return [ForAll([y], Implies(And(allin(xs, s), mem(xs, y)), mem(s, y)), patterns=[MultiPattern(allin(xs, s), mem(xs, y))]),
+            Implies(Not(allin(xs, s)), And(mem(xs, w_allin(xs, s)), Not(mem(s, w_allin(xs, s)))))]
+
+
+def _take(path):
+    d = _with_fromargs(make_definition(path))
+    reorder = path.fresh_bool('reorder')
+    given = {'objects': path.branch(path.fresh_bool('objects_given')), 'properties': path.branch(path.fresh_bool('properties_given'))}
+    args = {}
+    for nm in ('objects', 'properties'):
+        if given[nm]:
+            a = NameSeqArg(path, nm)
+            a.truth_fn = (lambda _a=a: seqs.slen(_a.s) > 0)
+            args[nm] = a
+        else:
+            args[nm] = NONE
+    for nm, ax in (('objects', '_objects'), ('properties', '_properties')):
+        u = d.fields[ax]
+
+        def issuperset(p, a, k, _u=u):
+            xs = seq_of_iterable(a[-1])
+            p.assume(allin_axioms(xs, _u.s))
+            return BoolV(allin(xs, _u.s))
+        _method(u, 'issuperset', issuperset)
+        _method(u, 'rsub', lambda p, a, k: ObjV('Unique', {'__or__': FuncV('or', lambda p2, a2, k2: ObjV('Unique', {}, name='notfound'))}, name='rsub'))
+
+    def unique_ctor(p, a, k):
+        src = seq_of_iterable(a[0])
+        p.assume([seqs.st_fold_facts(seqs.empty, src, seqs.slen(src)), seqs.st_mem_infirst(src)])
+        return UniqueObj(p, fold_add(seqs.empty, src, seqs.slen(src)), 'Unique(%s)' % a[0].name)
+    tools = ObjV('module', {'Unique': FuncV('tools.Unique', unique_ctor)}, name='tools')
+    g = dict(lib.builtins(), tools=tools, list=FuncV('list', lambda p, a, k: ObjV('list', {}, name='list(notfound)')))
+    extra = {'globals': g, 'closed_form': {'SetComp#0': lambda interp, env, node: pure_pairset_comprehension(path, interp, env, node)}}
+
+    def model_axis(L0, arg):
+        if isinstance(arg, ObjV) and hasattr(arg, 's'):
+            dedup = fold_add(seqs.empty, arg.s, seqs.slen(arg.s))
+            return If(reorder, dedup, seqs.keep(L0, seqs.setof(arg.s)))
+        return L0
+
+    def finish(path, env, outcome):
+        unknown = []
+        for nm, L0 in (('objects', d.O0), ('properties', d.P0)):
+            if given[nm]:
+                path.assume(allin_axioms(args[nm].s, L0))
+                unknown.append(And(seqs.slen(args[nm].s) > 0, Not(allin(args[nm].s, L0))))
+        bad = Or(*unknown) if unknown else BoolVal(False)
+        path.oblige('post/source-unchanged', 'post', And(view(d)[0] == d.O0, view(d)[1] == d.P0, view(d)[2] == d.C0))
+        if outcome[0] == 'raise':
+            path.oblige('post/KeyError-iff-unknown-name-requested', 'post', And(BoolVal(outcome[1] == 'KeyError'), bad))
+            return
+        path.oblige('post/accepted', 'post', Not(bad))
+        r = outcome[1]
+        if not fresh_result(path, r, [d]):
+            return
+        O, P, C = view(r)
+        mO, mP = model_axis(d.O0, args['objects']), model_axis(d.P0, args['properties'])
+        # sub-table in original order, or in the requested order when reorder is set; an EMPTY selection selects nothing
+        path.oblige('post/objects', 'post', O == mO)
+        path.oblige('post/properties', 'post', P == mP)
+        cells_equal(path, 'post/cells', C, lambda a, b: And(mem(mO, a), mem(mP, b), Select(d.C0, a, b)))
+    env = {'self': d, 'objects': args['objects'], 'properties': args['properties'], 'reorder': BoolV(reorder)}
+    return env, extra, finish
+
+
+register(Unit('definitions.take', D, 'TransformableMixin.take', _unit(_take),
+              assumptions=ASSUME + ['contracts of Unique.issuperset (every requested name is present), Unique.__init__ (names in the order given, without repeats), '
+                                    'Unique.copy, ASSUMED MutableSet.__iand__ (keeps the shared names in the own order)', 'the rendered list of unknown names is not specified'],
+              linkage=[('concepts.Definition.take', None)], max_paths=2000))
